@@ -61,7 +61,7 @@ func c12Run(w *W) {
 	nblocks := 2 + w.Choose(simrt.SShape, 5)
 	var seen []string
 	for bi := 0; bi < nblocks && !w.Failed(); bi++ {
-		blk := w.Choose(simrt.SProg, 12)
+		blk := w.Choose(simrt.SProg, 13)
 		seen = append(seen, fmt.Sprint(blk))
 		switch blk {
 		case 0: // bad scheme
@@ -262,6 +262,88 @@ func c12Run(w *W) {
 			c18Rejoin(w, c.mn, a, kind, s2)
 			c.do("s2.Close", func() (interface{}, error) { return nil, s2.Close() })
 			w.Probe("err-no-peers")
+		case 12: // the real tcp / ipc / tls+tcp endpoint code on the simulated network
+			tran := w.simFallback([]string{"tcp", "ipc", "tls+tcp"}[w.Choose(simrt.SProg, 3)])
+			nt := curNet
+			a := w.Addr(tran)
+			// (i) address in use: the failing Listen of a second socket can be retried once the address is free
+			l1, err := s.NewListener(a, w.EpOpts(a, true, nil))
+			if err != nil {
+				w.Failf("HARNESS/newlistener", "%s: %v", a, err)
+				return
+			}
+			r1 := c.do(tran+" l1.Listen", func() (interface{}, error) { return nil, l1.Listen() })
+			if r1.Returned() && r1.Err != nil {
+				w.Failf("HARNESS/listen", "%s: %v", a, r1.Err)
+				return
+			}
+			s2 := w.Sock(kind)
+			l2, err := s2.NewListener(a, w.EpOpts(a, true, nil))
+			if err != nil {
+				w.Failf("HARNESS/newlistener", "%s: %v", a, err)
+				return
+			}
+			r2 := c.do(tran+" l2.Listen(in use)", func() (interface{}, error) { return nil, l2.Listen() })
+			if r2.Returned() && r2.Err == nil {
+				w.Failf("C12/second-listen-accepted", "%s: a second socket was allowed to listen on %s", tran, a)
+			}
+			c.do(tran+" l2.GetOption", func() (interface{}, error) { return l2.GetOption(mangos.OptionMaxRecvSize) })
+			// (ii) a peer that connects and stays silent (no TLS hello, no SP
+			// header) while calls are made on the listener that accepted it
+			stalled, _ := nt.Dial(NetKey(a))
+			if stalled != nil {
+				w.Fault("hs-stall")
+				if tran != "tls+tcp" && w.Choose(simrt.SProg, 2) == 0 {
+					stalled.Write([]byte{0, 'S', 'P'})
+				}
+			}
+			w.Settle()
+			c.do(tran+" l1.GetOption(peer stalled)", func() (interface{}, error) { return l1.GetOption(mangos.OptionMaxRecvSize) })
+			c.do(tran+" l1.SetOption(peer stalled)", func() (interface{}, error) { return nil, l1.SetOption(mangos.OptionMaxRecvSize, 8192) })
+			c.do(tran+" l1.Address(peer stalled)", func() (interface{}, error) { return l1.Address(), nil })
+			// a conforming peer is served meanwhile
+			ps := w.Sock(peerKind[kind])
+			dc := c.do(tran+" peer.Dial(while another peer is stalled)", func() (interface{}, error) {
+				return nil, ps.DialOptions(a, w.EpOpts(a, false, map[string]interface{}{mangos.OptionDialAsynch: false}))
+			})
+			if dc.Returned() && dc.Err != nil {
+				w.Failf("C12/listener-stopped-accepting", "%s over %s: with one peer stalled in its handshake a conforming peer's Dial returned %v", kind, tran, dc.Err)
+			}
+			c.do(tran+" l1.Close", func() (interface{}, error) { return nil, l1.Close() })
+			c.do(tran+" peer.Close", func() (interface{}, error) { return nil, ps.Close() })
+			if stalled != nil {
+				stalled.Close()
+			}
+			w.Settle()
+			// (iii) the corrected retry: same listener object, address now free
+			r3 := c.do(tran+" l2.Listen(retry, address free)", func() (interface{}, error) { return nil, l2.Listen() })
+			if r3.Returned() && r3.Err != nil {
+				w.Failf("C12/retry-failed", "%s: Listen failed with %v while %s was in use; after the other listener was closed the retry on the same listener returns %v", tran, r2.Err, a, r3.Err)
+			}
+			// (iv) refused synchronous dial, then the retry on the same dialer
+			// once somebody listens (here: l2)
+			b := w.Addr(tran)
+			ps2 := w.Sock(peerKind[kind])
+			d, err := ps2.NewDialer(b, w.EpOpts(b, false, map[string]interface{}{mangos.OptionDialAsynch: false}))
+			if err != nil {
+				w.Failf("HARNESS/newdialer", "%s: %v", b, err)
+				return
+			}
+			r4 := c.do(tran+" d.Dial(nobody listens)", func() (interface{}, error) { return nil, d.Dial() })
+			if r4.Returned() && r4.Err == nil {
+				w.Failf("HARNESS/plan", "dial to %s was expected to be refused", b)
+			}
+			c.do(tran+" d.GetOption", func() (interface{}, error) { return d.GetOption(mangos.OptionMaxRecvSize) })
+			r5 := c.do(tran+" s2.Listen(b)", func() (interface{}, error) { return nil, s2.ListenOptions(b, w.EpOpts(b, true, nil)) })
+			if r5.Returned() && r5.Err == nil {
+				r6 := c.do(tran+" d.Dial(retry)", func() (interface{}, error) { return nil, d.Dial() })
+				if r6.Returned() && r6.Err != nil {
+					w.Failf("C12/dial-retry-refused", "%s: the peer listens on %s now but retrying Dial on the same dialer returned %v", tran, b, r6.Err)
+				}
+			}
+			c.do(tran+" ps2.Close", func() (interface{}, error) { return nil, ps2.Close() })
+			c.do(tran+" s2.Close", func() (interface{}, error) { return nil, s2.Close() })
+			w.Probe("real-stream-endpoints-in-simulation")
 		}
 		if w.WedgeCheck("C12") {
 			return
